@@ -31,7 +31,7 @@ ASSUMPTIONS = ['numpy / nutils applied to plain numbers in reference (SI base) u
                'q == r and q != r on quantities of different dimension may answer False / True through Python\'s NotImplemented protocol instead of raising (needed for hashing); every other mismatch must raise',
                'calls whose result dimension is not determined by the operands (function.jacobian without ndims) are not judged; keyword-only numpy extras (out=, where=, ord=0) are outside the bounds',
                'nutils.unit: only the documented grammar (unsigned decimal numbers, integer powers) is generated']
-BUDGET_S = {'quick': 600, 'thorough': 3000}
+BUDGET_S = {'quick': 1500, 'thorough': 6000}
 
 NUMERIC_FIRST = ('_operator', 'numpy')
 
@@ -44,8 +44,17 @@ def _dispatch():
 def shards(tier, seed):
     D = _dispatch()
     names = sorted(D.entries(), key=lambda n: (not n.startswith(NUMERIC_FIRST), n))
-    out = [{'part': 'dimalg'}]
+    from ..c20_compose import OPS, INNER, OUTER
+    out = [{'part': 'dimalg'}, {'part': 'sitable'}]
     out += [{'part': 'entry', 'name': n} for n in names]
+    out += [{'part': 'setattr', 'chunk': i, 'of': 4} for i in range(4)]
+    out += [{'part': 'si', 'nf': 1, 'chunk': i, 'of': 8} for i in range(8)]
+    out += [{'part': 'old', 'table': t, 'nf': nf, 'chunk': i, 'of': k} for t in sorted(M.OLD_TABLES) for nf, k in ((1, 2), (2, 2), (3, 4 if tier == 'quick' else 16)) for i in range(k)]
+    out += [{'part': 'depth2', 'outer': o} for o in OPS]
+    out += [{'part': 'si', 'nf': 2, 'chunk': i, 'of': 16} for i in range(16)]
+    n3 = 16 if tier == 'quick' else 64
+    out += [{'part': 'si', 'nf': 3, 'chunk': i, 'of': n3} for i in range(n3)]
+    out += [{'part': 'depth2f', 'outer': o, 'inner': i} for o in OUTER for i in INNER]
     return out
 
 
@@ -81,9 +90,11 @@ def account(res, w, outcome, name, tname):
     res.count('evaluations')
     res.count('cases_' + status.lower().replace('-', '_'))
     if status == 'VIOLATION':
-        kind, msg = detail
-        res.violation('{}:{}:{}'.format(kind, name, tname), '{} {} kinds={} dims={}: {}'.format(
-            name, tname, w.get('kinds'), [M.dkey(M.dec(d)) for d in w.get('dims', [])], msg), w)
+        kind, msg = detail[:2]
+        if len(detail) > 2:   # the composition blames one of its two operations
+            tname = detail[2]
+        res.violation('{}:{}:{}'.format(kind, name, tname), '{} {} {} dims={}: {}'.format(
+            name, tname, w.get('kinds') or w.get('kind') or '', [M.dkey(M.dec(d)) for d in w.get('dims', [])], msg), w)
         return 1
     if status in ('ok', 'reject-ok'):
         res.distinct('distinct_nontrivial', json.dumps(w, sort_keys=True))
@@ -102,9 +113,90 @@ def run_shard(spec, tier, seed):
     elif part == 'dimalg':
         from ..c20_special import run_dimalg
         run_dimalg(res, tier)
+    elif part == 'depth2':
+        from ..c20_compose import numeric_cases, case_numeric
+        for w in numeric_cases(spec['outer']):
+            account(res, w, case_numeric(w), 'depth2', w['outer'])
+    elif part == 'depth2f':
+        from ..c20_compose import function_cases, case_function
+        for w in function_cases(spec['outer'], spec['inner'], tier):
+            account(res, w, case_function(w), 'depth2f', w['outer'])
+    elif part == 'sitable':
+        run_sitable(res)
+    elif part == 'si':
+        run_si(spec, res, tier)
+    elif part == 'setattr':
+        run_setattr(spec, res)
+    elif part == 'old':
+        run_old(spec, res, tier)
     else:
         raise core.HarnessError('unknown shard ' + repr(spec))
     return res
+
+
+def _simple(res, w, v, label):
+    res.count('evaluations')
+    if v:
+        res.count('cases_violation')
+        res.violation('{}:{}'.format(v[0], label), v[1], w)
+    else:
+        res.count('cases_ok')
+        res.distinct('distinct_nontrivial', json.dumps(w, sort_keys=True, ensure_ascii=False))
+
+
+def run_sitable(res):
+    from .. import c20_strings as S
+    keys = S.si_keys()
+    bad = {k: (kind, msg) for kind, msg, k in S.check_table()}
+    for k in keys:
+        _simple(res, {'part': 'sikey', 'key': k}, bad.get(k), 'SI.units')
+    res.count('competing_readings', len(S.competing(keys)))
+    for s in S.INVALID:
+        _simple(res, {'part': 'siinvalid', 's': s}, S.check_invalid(s), 'SI.parse')
+    res.sample({'competing prefix+name readings': S.competing(keys), 'units': len(keys)})
+
+
+def si_terms(nf, tier):
+    from .. import c20_strings as S
+    if nf == 1:
+        return S.si1_terms()
+    if nf == 2:
+        return S.si2_terms(S.ATOMS_LARGE)
+    return S.si3_terms(S.ATOMS_SMALL) if tier == 'quick' else S.si3_terms(S.ATOMS_MEDIUM)
+
+
+def run_si(spec, res, tier):
+    from .. import c20_strings as S
+    for i, term in enumerate(si_terms(spec['nf'], tier)):
+        if i % spec['of'] != spec['chunk']:
+            continue
+        w = {'part': 'siterm', 'term': term}
+        v = S.check_si_term(term)
+        _simple(res, w, v, 'SI-string:{}-factor'.format(spec['nf']))
+        if not v and i % 50021 == 0:
+            res.sample({'unit string': M.si_term_string(*term)})
+
+
+def run_setattr(spec, res):
+    from .. import c20_strings as S
+    for i, name in enumerate(S.setattr_candidates()):
+        if i % spec['of'] != spec['chunk']:
+            continue
+        for form in ('q', 's', 'x'):
+            w = {'part': 'setattr', 'name': name, 'form': form}
+            _simple(res, w, S.check_setattr(name, form), 'Units.__setattr__')
+
+
+def run_old(spec, res, tier):
+    from .. import c20_strings as S
+    if spec['nf'] == 1:
+        for kind, msg, s in S.check_old_invalid(spec['table']):
+            res.violation(kind + ':nutils.unit', msg, {'part': 'oldinvalid', 'table': spec['table']})
+    for i, term in enumerate(S.old_terms(spec['table'], spec['nf'], tier)):
+        if i % spec['of'] != spec['chunk']:
+            continue
+        w = {'part': 'oldterm', 'table': spec['table'], 'term': term}
+        _simple(res, w, S.check_old_term(spec['table'], term), 'nutils.unit:{}'.format(spec['table']))
 
 
 def replay(w):
@@ -118,6 +210,28 @@ def replay(w):
         t, = [t for t in build()[w['entry']] if t.name == w['tmpl']]
         status, detail = D.run_case(w['entry'], fn, t, tuple(w['kinds']), [M.dec(d) for d in w['dims']])
         return '{}: {}'.format(*detail) if status == 'VIOLATION' else None
+    fmt = lambda v: None if v is None else '{}: {}'.format(*v)
+    if part == 'depth2':
+        from ..c20_compose import case_numeric
+        status, detail = case_numeric(w)
+        return fmt(detail[:2]) if status == 'VIOLATION' else None
+    if part == 'depth2f':
+        from ..c20_compose import case_function
+        status, detail = case_function(w)
+        return fmt(detail) if status == 'VIOLATION' else None
+    from .. import c20_strings as S
+    if part == 'siterm':
+        return fmt(S.check_si_term(w['term']))
+    if part == 'sikey':
+        return fmt(next(((k, m) for k, m, key in S.check_table() if key == w['key']), None))
+    if part == 'siinvalid':
+        return fmt(S.check_invalid(w['s']))
+    if part == 'setattr':
+        return fmt(S.check_setattr(w['name'], w['form']))
+    if part == 'oldterm':
+        return fmt(S.check_old_term(w['table'], w['term']))
+    if part == 'oldinvalid':
+        return fmt(next(((k, m) for k, m, s in S.check_old_invalid(w['table'])), None))
     from ..c20_special import REPLAY
     if part in REPLAY:
         return REPLAY[part](w)
